@@ -41,6 +41,9 @@ THEOREMS = [
     "Opacus.C11.accumulated_kept",
     # the tie to the source: Generated/ZeroGrad.lean is re-translated from both DP optimizers' zero_grad on every run
     "Opacus.C11.generated_zero_grad_eq_model",
+    "Opacus.C11.fresh_optimizer_releases_own_batch",
+    "Opacus.C11.fresh_optimizer_inheriting_leaks",
+    "Opacus.C11.generated_init_eq_model",
 ]
 RULE = (
     "case = (optimizer kind std|ghost, accumulation allowed?, accountant rdp|gdp, op sequence over {fwdbwd n, step, optimizer.zero_grad, "
@@ -53,6 +56,7 @@ TRUSTED = [
     "one optimised parameter tensor (flags are set and checked per parameter in the same loop; hooks give every parameter its grad_sample in the same backward)",
 ]
 PARTIAL = [
+    "a second optimizer constructed on a used module (training in phases): the theorem fresh_optimizer_releases_own_batch covers the standard optimizer's first step after construction (constructor state re-translated from DPOptimizer.__init__, generated_init_eq_model); longer histories across several optimizer objects, and the ghost optimizer, are covered by the real-objects oracle (fresh_optimizer_oracle) only",
     "ghost clipping optimizer: the guarantee fails as coded (D10, counterexample proved); it is proved under the usage discipline `a backward or a clearing between two step() calls` (ghost_no_double_release_partial); the correspondence covers every ghost sequence",
 ]
 
